@@ -16,7 +16,7 @@ Definition shell_parseline : fdef :=
 (* beanquery.shell.DispatchingShell.onecmd *)
 Definition shell_onecmd : fdef :=
   {| f_params := ["self"; "line"];
-     f_body := [(SUnpack [(TName "cmd"); (TName "arg"); (TName "line")] (XCall (XAttr (XName "self") "parseline") [(XName "line")] None)); (SIf (XNot (XName "cmd")) [(SReturn None)] []); (SIf (XNot (XCallMethod (XName "line") "startswith" [(XConst (PV (VStr [46])))])) [(SAssign (TName "cmd") (XCallMethod (XName "cmd") "lower" [])); (SIf (XCompare (XName "cmd") [(CNotIn, (XList [(XConst (PV (VStr [99; 108; 101; 97; 114]))); (XConst (PV (VStr [101; 114; 114; 111; 114; 115]))); (XConst (PV (VStr [101; 120; 105; 116]))); (XConst (PV (VStr [104; 101; 108; 112]))); (XConst (PV (VStr [104; 105; 115; 116; 111; 114; 121]))); (XConst (PV (VStr [112; 97; 114; 115; 101]))); (XConst (PV (VStr [113; 117; 105; 116]))); (XConst (PV (VStr [114; 117; 110]))); (XConst (PV (VStr [115; 101; 116])))]))]) [(SReturn (Some (XCall (XAttr (XName "self") "execute") [(XName "line")] None)))] []); (SExpr (XCall (XConst (PRef 0)) [(XPrim "fstring" [(XConst (PV (VStr [99; 111; 109; 109; 97; 110; 100; 115; 32; 119; 105; 116; 104; 111; 117; 116; 32; 34; 46; 34; 32; 112; 114; 101; 102; 105; 120; 32; 97; 114; 101; 32; 100; 101; 112; 114; 101; 99; 97; 116; 101; 100; 46; 32; 117; 115; 101; 32; 34; 46]))); (XName "cmd"); (XConst (PV (VStr [34; 32; 105; 110; 115; 116; 101; 97; 100])))]); (XConst (PInt 0))] None))] []); (SAssign (TName "func") (XPrim "builtins.getattr" [(XName "self"); (XBin OAdd (XConst (PV (VStr [100; 111; 95]))) (XName "cmd")); (XConst PNone)])); (SIf (XCompare (XName "func") [(CIsNot, (XConst PNone))]) [(SReturn (Some (XCall (XName "func") [(XName "arg")] None)))] []); (SExpr (XCall (XAttr (XName "self") "error") [(XPrim "fstring" [(XConst (PV (VStr [117; 110; 107; 110; 111; 119; 110; 32; 99; 111; 109; 109; 97; 110; 100; 32; 34]))); (XName "cmd"); (XConst (PV (VStr [34])))])] None))];
+     f_body := [(SUnpack [(TName "cmd"); (TName "arg"); (TName "line")] (XCall (XAttr (XName "self") "parseline") [(XName "line")] None)); (SIf (XNot (XName "cmd")) [(SReturn None)] []); (SIf (XNot (XCallMethod (XName "line") "startswith" [(XConst (PV (VStr [46])))])) [(SAssign (TName "cmd") (XCallMethod (XName "cmd") "lower" [])); (SIf (XCompare (XName "cmd") [(CNotIn, (XList [(XConst (PV (VStr [99; 108; 101; 97; 114]))); (XConst (PV (VStr [101; 114; 114; 111; 114; 115]))); (XConst (PV (VStr [101; 120; 105; 116]))); (XConst (PV (VStr [104; 101; 108; 112]))); (XConst (PV (VStr [104; 105; 115; 116; 111; 114; 121]))); (XConst (PV (VStr [112; 97; 114; 115; 101]))); (XConst (PV (VStr [113; 117; 105; 116]))); (XConst (PV (VStr [114; 117; 110]))); (XConst (PV (VStr [115; 101; 116])))]))]) [(SReturn (Some (XCall (XAttr (XName "self") "execute") [(XName "line")] None)))] []); (SExpr (XCall (XConst (PRef 0)) [(XPrim "fstring" [(XConst (PV (VStr [99; 111; 109; 109; 97; 110; 100; 115; 32; 119; 105; 116; 104; 111; 117; 116; 32; 34; 46; 34; 32; 112; 114; 101; 102; 105; 120; 32; 97; 114; 101; 32; 100; 101; 112; 114; 101; 99; 97; 116; 101; 100; 46; 32; 117; 115; 101; 32; 34; 46]))); (XName "cmd"); (XConst (PV (VStr [34; 32; 105; 110; 115; 116; 101; 97; 100])))]); (XConst (PInt 0))] None))] []); (SAssign (TName "func") (XPrim "builtins.getattr" [(XName "self"); (XBin OAdd (XConst (PV (VStr [100; 111; 95]))) (XName "cmd")); (XConst PNone)])); (SIf (XCompare (XName "func") [(CIsNot, (XConst PNone))]) [(SReturn (Some (XCall (XName "func") [(XName "arg")] None)))] []); (SExpr (XMethod (TSelf "$events") "append" [(XTuple [(XConst (PV (VStr [101; 114; 114; 111; 114]))); (XPrim "fstring" [(XConst (PV (VStr [117; 110; 107; 110; 111; 119; 110; 32; 99; 111; 109; 109; 97; 110; 100; 32; 34]))); (XName "cmd"); (XConst (PV (VStr [34])))])])]))];
      f_gen := false |}.
 
 (* beanquery.shell.Settings._parse_bool *)
@@ -24,6 +24,37 @@ Definition settings_parse_bool : fdef :=
   {| f_params := ["self"; "value"];
      f_body := [(SIf (XCompare (XName "value") [(CIn, (XList [(XConst (PBool true)); (XConst (PBool false))]))]) [(SReturn (Some (XName "value")))] []); (SAssign (TName "norm") (XCallMethod (XCallMethod (XName "value") "strip" []) "lower" [])); (SIf (XCompare (XName "norm") [(CIn, (XList [(XConst (PV (VStr [49]))); (XConst (PV (VStr [116; 114; 117; 101]))); (XConst (PV (VStr [116]))); (XConst (PV (VStr [121; 101; 115]))); (XConst (PV (VStr [121]))); (XConst (PV (VStr [111; 110])))]))]) [(SReturn (Some (XConst (PBool true))))] []); (SIf (XCompare (XName "norm") [(CIn, (XList [(XConst (PV (VStr [48]))); (XConst (PV (VStr [102; 97; 108; 115; 101]))); (XConst (PV (VStr [102]))); (XConst (PV (VStr [110; 111]))); (XConst (PV (VStr [110]))); (XConst (PV (VStr [111; 102; 102])))]))]) [(SReturn (Some (XConst (PBool false))))] []); (SExpr (XPrim "raise" [(XConst (PV (VStr [98; 117; 105; 108; 116; 105; 110; 115; 46; 86; 97; 108; 117; 101; 69; 114; 114; 111; 114]))); (XConst (PV (VStr [34]))); (XPrim "fstring" [(XConst (PV (VStr [34]))); (XName "value"); (XConst (PV (VStr [34; 32; 105; 115; 32; 110; 111; 116; 32; 97; 32; 118; 97; 108; 105; 100; 32; 98; 111; 111; 108; 101; 97; 110])))])]))];
      f_gen := false |}.
+
+(* beanquery.shell.Settings._parse_format *)
+Definition settings_parse_format : fdef :=
+  {| f_params := ["self"; "value"];
+     f_body := [(SIf (XNot (XPrim "contains:beanquery.shell.FORMATS" [(XName "value")])) [(SExpr (XPrim "raise" [(XConst (PV (VStr [98; 117; 105; 108; 116; 105; 110; 115; 46; 86; 97; 108; 117; 101; 69; 114; 114; 111; 114]))); (XConst (PV (VStr [34]))); (XPrim "fstring" [(XConst (PV (VStr [34]))); (XName "value"); (XConst (PV (VStr [34; 32; 105; 115; 32; 110; 111; 116; 32; 97; 32; 118; 97; 108; 105; 100; 32; 102; 111; 114; 109; 97; 116])))])]))] []); (SReturn (Some (XName "value")))];
+     f_gen := false |}.
+
+(* beanquery.shell.Settings.getstr (self as a value) *)
+Definition settings_getstr : fdef :=
+  {| f_params := ["self"; "name"];
+     f_body := [(SIf (XNot (XPrim "contains" [(XCallMethod (XName "self") "todict" []); (XName "name")])) [(SExpr (XPrim "raise" [(XConst (PV (VStr [98; 117; 105; 108; 116; 105; 110; 115; 46; 65; 116; 116; 114; 105; 98; 117; 116; 101; 69; 114; 114; 111; 114]))); (XConst (PV (VStr []))); (XName "name")]))] []); (SAssign (TName "value") (XPrim "builtins.getattr" [(XName "self"); (XName "name")])); (SIf (XPrim "isinstance:builtins.str" [(XName "value")]) [(SReturn (Some (XPrim "builtins.repr" [(XName "value")])))] []); (SIf (XPrim "isinstance:builtins.bool" [(XName "value")]) [(SReturn (Some (XIfExp (XName "value") (XConst (PV (VStr [116; 114; 117; 101]))) (XConst (PV (VStr [102; 97; 108; 115; 101]))))))] []); (SReturn (Some (XPrim "builtins.str" [(XName "value")])))];
+     f_gen := false |}.
+
+(* beanquery.shell.Settings.setstr (self as a value) *)
+Definition settings_setstr : fdef :=
+  {| f_params := ["self"; "name"; "value"];
+     f_body := [(SIf (XNot (XPrim "contains" [(XCallMethod (XName "self") "todict" []); (XName "name")])) [(SExpr (XPrim "raise" [(XConst (PV (VStr [98; 117; 105; 108; 116; 105; 110; 115; 46; 65; 116; 116; 114; 105; 98; 117; 116; 101; 69; 114; 114; 111; 114]))); (XConst (PV (VStr []))); (XName "name")]))] []); (SAssign (TName "vtype") (XPrim "builtins.type" [(XPrim "builtins.getattr" [(XName "self"); (XName "name")])])); (SAssign (TName "parse") (XPrim "builtins.getattr" [(XName "self"); (XPrim "fstring" [(XConst (PV (VStr [95; 112; 97; 114; 115; 101; 95]))); (XName "name")]); (XPrim "builtins.getattr" [(XName "self"); (XPrim "fstring" [(XConst (PV (VStr [95; 112; 97; 114; 115; 101; 95]))); (XAttr (XName "vtype") "__name__")]); (XName "vtype")])])); (SAssign (TName "self") (XPrim "builtins.setattr" [(XName "self"); (XName "name"); (XCall (XName "parse") [(XName "value")] None)]))];
+     f_gen := false |}.
+
+(* beanquery.shell.DispatchingShell.do_set *)
+Definition shell_do_set : fdef :=
+  {| f_params := ["self"; "arg"];
+     f_body := [(SIf (XNot (XName "arg")) [(SFor "name" (XPrim "iter" [(XAttr (XName "self") "settings")]) [(SAssign (TName "value") (XCallMethod (XAttr (XName "self") "settings") "getstr" [(XName "name")])); (SExpr (XMethod (TSelf "$events") "append" [(XTuple [(XConst (PV (VStr [111; 117; 116; 102; 105; 108; 101]))); (XPrim "fstring" [(XName "name"); (XConst (PV (VStr [58; 32]))); (XName "value")])])]))])] [(SAssign (TName "components") (XPrim "shlex.split" [(XName "arg")])); (SAssign (TName "name") (XPrim "getitem" [(XName "components"); (XConst (PInt 0))])); (SIf (XCompare (XLen (XName "components")) [(CEq, (XConst (PInt 1)))]) [(STry [(SAssign (TName "value") (XCallMethod (XAttr (XName "self") "settings") "getstr" [(XName "name")])); (SExpr (XMethod (TSelf "$events") "append" [(XTuple [(XConst (PV (VStr [111; 117; 116; 102; 105; 108; 101]))); (XPrim "fstring" [(XName "name"); (XConst (PV (VStr [58; 32]))); (XName "value")])])]))] [7] [(SExpr (XMethod (TSelf "$events") "append" [(XTuple [(XConst (PV (VStr [101; 114; 114; 111; 114]))); (XPrim "fstring" [(XConst (PV (VStr [118; 97; 114; 105; 97; 98; 108; 101; 32; 34]))); (XName "name"); (XConst (PV (VStr [34; 32; 100; 111; 101; 115; 32; 110; 111; 116; 32; 101; 120; 105; 115; 116])))])])]))])] [(SIf (XCompare (XLen (XName "components")) [(CEq, (XConst (PInt 2)))]) [(SAssign (TName "value") (XPrim "getitem" [(XName "components"); (XConst (PInt 1))])); (STry [(STry [(SExpr (XMethod (TSelf "settings") "setstr" [(XName "name"); (XName "value")]))] [5] [(SExpr (XMethod (TSelf "$events") "append" [(XTuple [(XConst (PV (VStr [101; 114; 114; 111; 114]))); (XPrim "exc_text" [])])]))])] [7] [(SExpr (XMethod (TSelf "$events") "append" [(XTuple [(XConst (PV (VStr [101; 114; 114; 111; 114]))); (XPrim "fstring" [(XConst (PV (VStr [118; 97; 114; 105; 97; 98; 108; 101; 32; 34]))); (XName "name"); (XConst (PV (VStr [34; 32; 100; 111; 101; 115; 32; 110; 111; 116; 32; 101; 120; 105; 115; 116])))])])]))])] [(SExpr (XMethod (TSelf "$events") "append" [(XTuple [(XConst (PV (VStr [101; 114; 114; 111; 114]))); (XConst (PV (VStr [105; 110; 118; 97; 108; 105; 100; 32; 110; 117; 109; 98; 101; 114; 32; 111; 102; 32; 97; 114; 103; 117; 109; 101; 110; 116; 115])))])]))])])])];
+     f_gen := false |}.
+
+(* beanquery.shell.BQLShell.parse *)
+Definition shell_parse : fdef :=
+  {| f_params := ["self"; "line"; "default_close_date"];
+     f_body := [(SAssign (TName "statement") (XCallMethod (XAttr (XName "self") "context") "parse" [(XName "line")])); (SIf (XBoolOp true [(XPrim "isinstance:beanquery.parser.ast.Select" [(XName "statement")]); (XPrim "isinstance:beanquery.parser.ast.From" [(XAttr (XName "statement") "from_clause")]); (XNot (XAttr (XAttr (XName "statement") "from_clause") "close"))]) [(SAssign (TName "statement") (XPrim "setpath:from_clause.close" [(XName "statement"); (XName "default_close_date")]))] []); (SReturn (Some (XName "statement")))];
+     f_gen := false |}.
+Definition shell_parse_defaults : list expr := [(XConst PNone)].
 
 Definition refs : list (nat * string) :=
   [(0%nat, "_warnings.warn:stacklevel")].
